@@ -140,3 +140,64 @@ class GenerateSnapshots(Contract):
         if ori is None:
             return z3.BoolVal(False)
         return z3.And(C[a][b] != 0, z3.Or(a == b, ori(a, b)))
+
+
+class GenerateInteractions(Contract):
+    r"""generate_interactions (C10: the rows of the interaction-list writer), modular against the contract of stream_interactions.
+    ensures  the yielded rows are exactly Row(u,v,op,t) of the events of stream_interactions(), one per event, IN STREAM ORDER
+             (ghost sequence ys, length n:  ys[i] = code(event i));  G is not modified"""
+    props = ('C10',)
+    key = 'edgelist::generate_interactions'
+
+    def __init__(self, cls, bound_n=None):
+        self.cls = cls
+        self.directed = cls == 'DynDiGraph'
+
+    def uses(self, eng):
+        from .stream import StreamInteractions
+        return [StreamInteractions(self.cls)]
+
+    def reads(self):
+        from .stream import StreamInteractions
+        return [StreamInteractions(self.cls).key]
+
+    def setup(self, ctx, variant):
+        from pyvc.sym import EvRow
+        g = HGraph('G', self.directed, self.cls).havoc('0')
+        ctx.graphs['G'] = g
+        ctx.assume(spec.tte_h(g), 'tte')
+        self.ghost0 = {'$yseq': VOpaque(fresh('ys0', A(Int, EvRow)), 'ghost'), '$ylen': VInt(0)}
+        c = Call(g=g, pre=g.snapshot(), qi=fresh('qi', Int), argv=[VGraph(g), VStr(' ')], kwv={})
+        ctx.gi = c
+        return c
+
+    def body(self, interp, call):
+        interp.generator_ghost = dict(self.ghost0)
+        return Contract.body(self, interp, call)
+
+    def loop_specs(self):
+        def inv(L):
+            from pyvc.sym import evrow
+            ys, n = L.env['$yseq'].z, L.env['$ylen'].z
+            seq = L.iterable
+            i = z3.Int('i?gi')
+            return [('as_many_rows_as_events_so_far', n == L.k),
+                    ('row_i_is_event_i', FA([i], z3.Implies(inb(i, L.k), ys[i] == evrow(seq.meta['key'](i), seq.meta['time'](i))), [ys[i]]))]
+        return {'seq/1': LoopSpec(inv, modifies={}, tags=('C10',))}
+
+    def finish(self, ctx, c, outcome):
+        from pyvc.sym import evrow
+        T = ('C10',)
+        if outcome[0] == 'raise':
+            return self.forbid(ctx, 'C10.rows.no_exception.%s' % outcome[1], tags=T, note=outcome[2])
+        gh = getattr(outcome[1], 'ghost', None)
+        if gh is None or '$yseq' not in gh or outcome[1].items:
+            return self.forbid(ctx, 'C10.rows.yields_rows', tags=T)
+        seq = getattr(ctx, 'gi_seq', None)
+        ys, n = gh['$yseq'].z, gh['$ylen'].z
+        if seq is None:
+            return self.forbid(ctx, 'C10.rows.iterates_the_stream', tags=T)
+        ctx.oblige('C10.rows.one_row_per_stream_event', n == seq.n, tags=T)
+        ctx.oblige('C10.rows.in_stream_order', z3.Implies(inb(c.qi, seq.n), ys[c.qi] == evrow(seq.meta['key'](c.qi), seq.meta['time'](c.qi))), tags=T)
+        for comp, f in spec.state_unchanged(c.g, c.pre).items():
+            ctx.oblige('C10.rows.modifies_nothing.%s' % comp, f, tags=T)
